@@ -1,7 +1,7 @@
 (* C06 -- hierarchical composition is functional substitution.  Statements only; proofs in Proofs/ComposeProofs.v,
    Proofs/FillProofs.v, Proofs/FastEvalProofs.v. *)
 From stdpp Require Import strings gmap pmap sets.
-From CG Require Import Base.Cases Base.Compose Base.Oracle Model.Compose6 Model.FastEval Proofs.ComposeProofs Proofs.FillProofs Proofs.FastEvalProofs.
+From CG Require Import Base.Cases Base.Compose Base.Oracle Model.Compose6 Model.FastEval Proofs.ComposeProofs Proofs.FillProofs Proofs.BlackboxProofs Proofs.FastEvalProofs Proofs.SweepProofs.
 Open Scope string_scope.
 
 (* add_subcircuit(sc, name, connections) with the default strip_io, whenever the call is accepted: the parent's name,
@@ -94,14 +94,36 @@ Theorem C06_strip_blackboxes_noignore : ∀ C R,
 Proof. exact strip_blackboxes_spec_noignore. Qed.
 Print Assumptions C06_strip_blackboxes_noignore.
 
-(* Not proved (decided per recorded result by the oracle, Run/Run_C06.v):
-   - inputs/outputs of the parent unchanged by fill_blackbox (`inputs (c_g P') = inputs (c_g P)`): *)
-Definition C06_fill_io_full : Prop := ∀ P inst SC P' d,
+(* the parent's own input / output lists are unchanged by fill_blackbox (the pins were neither inputs nor marked outputs) *)
+Theorem C06_fill_io : ∀ P inst SC P' d,
   c_bbs P !! inst = Some d → fill_blackbox P inst SC = (P', Done) →
   (∀ p i, p ∈ bb_in d ∪ bb_out d → c_g P !! pin inst p = Some i → n_ty i ≠ Input ∧ n_out i = false) →
   inputs (c_g P') = inputs (c_g P) ∧ outputs (c_g P') = outputs (c_g P).
-(*  - the specification of add_blackbox (registry entry + typed pins + attached nets equal), and
-    - for add_subcircuit with strip_io=False. *)
+Proof. exact fill_blackbox_io. Qed.
+Print Assumptions C06_fill_io.
+
+(* add_blackbox(bb, name, connections), whenever accepted (ins / outs: iteration orders of the blackbox's pin sets) *)
+Theorem C06_add_blackbox_struct : ∀ P d inst ins outs conns P',
+  add_blackbox P d inst ins outs conns = (P', Done) →
+  inst ∉ dom (c_bbs P) ∧ c_name P' = c_name P ∧ c_bbs P' = <[inst := d]> (c_bbs P) ∧
+  inputs (c_g P') = inputs (c_g P) ∧ outputs (c_g P') = outputs (c_g P) ∧
+  dom (c_g P') = dom (c_g P) ∪ set_map (pin inst) (list_to_set ins ∪ list_to_set outs : gset string) ∧
+  (∀ p, p ∈ ins → ty (c_g P') (pin inst p) = Some BbIn) ∧ (∀ p, p ∈ outs → ty (c_g P') (pin inst p) = Some BbOut) ∧
+  (∀ n, n ∈ dom (c_g P) → ty (c_g P') n = ty (c_g P) n).
+Proof. exact add_blackbox_struct. Qed.
+Print Assumptions C06_add_blackbox_struct.
+
+Theorem C06_add_blackbox : ∀ P d inst ins outs conns P',
+  add_blackbox P d inst ins outs conns = (P', Done) →
+  list_to_set ins = bb_in d → list_to_set outs = bb_out d →
+  (∀ kv net, kv ∈ conns → kv.1 ∉ bb_in d → net ∈ kv.2 → free_buf (c_g P) net) →
+  ∀ v, consistent (c_g P') v ↔
+    consistent (c_g P) v ∧
+    Forall (λ kv, ∀ net, net ∈ kv.2 → (kv.1 ∈ bb_in d → v (pin inst kv.1) = v net) ∧ (kv.1 ∉ bb_in d → v net = v (pin inst kv.1))) conns.
+Proof. exact add_blackbox_sem. Qed.
+Print Assumptions C06_add_blackbox.
+
+(* Not stated as a theorem: add_subcircuit with strip_io=False (non-default; decided per recorded result by the oracle). *)
 
 (* building blocks named in the design: driving a free buffer adds exactly the constraint v x = v u *)
 Theorem C06_drive_node : ∀ c u x i v, c !! x = Some i → (n_ty i = Buf ∨ n_ty i = BbIn) → n_fi i ⊆ {[u]} →
@@ -114,6 +136,17 @@ Theorem C06_oracle_check_is_consistent : ∀ T (ix : index) f G,
   check_prog T (compile ix f G ∅) = true ↔ consistent G (tab_val T ix ∘ f).
 Proof. exact check_prog_consistent. Qed.
 Print Assumptions C06_oracle_check_is_consistent.
+
+(* the oracle's sweep decides a statement about ALL consistent valuations: when `sweepc R mk` answers true for a closed acyclic R,
+   every consistent valuation of R coincides on R's nodes with one of the enumerated tables, and that table passed every side check *)
+Theorem C06_oracle_sweep_complete : ∀ R mk v,
+  closed R → acyclic R → sweepc R mk = true → consistent R v →
+  let ord := topo_order R in let idx := index_of ord in let ix : index := λ n, idx !! n in
+  ∃ T : Pmap bool,
+    agrees (dom R) v (tab_val T ix) ∧ consistent R (tab_val T ix) ∧
+    Forall (λ prog, check_prog T prog = true) (s_progs (mk ix)) ∧ eqs_ok T (s_eqs (mk ix)) = true ∧ s_pred (mk ix) (look T) = true.
+Proof. exact sweepc_complete. Qed.
+Print Assumptions C06_oracle_sweep_complete.
 
 (* non-vacuity: a parent with an undriven buffer h, a child with input a and output o; a is fed from x, o drives h *)
 Definition exP := mk "top" [("x", Input, false, []); ("h", Buf, false, []); ("g", And, true, ["x"; "h"])] [].
